@@ -14,13 +14,14 @@ import (
 
 // C12 — cluster lookup combines basic and advanced rules as documented.
 func init() {
+	const brt = "bfe_config/bfe_route_conf/route_rule_conf/basic_rule_tree.go"
 	Register(&Rule{
 		ID: "C12", Section: "4 C12",
-		Technique: "feasible-path enumeration of HostTable.LookupCluster with phis resolved along each path (branch facts over SSA values, contradiction pruning); per-path classification basic={none,miss,advmode,real} x advanced={-,norules,match,nomatch} and value-flow of Route.ClusterName / Route.Error / the returned error; structural check of the rule-iteration index; reachability in ReverseProxy.ServeHTTP; census of writers of the error sentinels; loop-iteration must-pass (inside the natural loop over the configured rules no header-to-header path avoids the insertion of the current element) for the basic tree build and the advanced slice build",
+		Technique: "feasible-path enumeration of HostTable.LookupCluster with phis resolved along each path (branch facts over SSA values, contradiction pruning); per-path classification basic={none,miss,advmode,real} x advanced={-,norules,match,nomatch} and value-flow of Route.ClusterName / Route.Error / the returned error; structural check of the rule-iteration index; reachability in ReverseProxy.ServeHTTP; census of writers of the error sentinels; loop-iteration must-pass (inside the natural loop over the configured rules no header-to-header path avoids the insertion of the current element) for the basic tree build and the advanced slice build; key-form agreement between the lookup and the insert side of every radix tree of the basic rule tree (normaliser chain plus, per class of key {empty, ends in the suffix, does not}, whether the constant suffix is appended, the classes of a path being derived from its branch facts over len/last byte/==\"\"/strings.HasSuffix/boolean helpers); exit analysis of the basic lookup functions (a not-found verdict after a found-and-rejected candidate needs a missed lookup in the same tree)",
 		Meta: core.Meta{
 			Level:       "other",
-			Explanation: "Decides on every feasible path of bfe_route.HostTable.LookupCluster: (a) the basic tree consulted is productBasicRouteTree[req.Route.Product] (only under a successful map lookup), with the request host stripped of its port and URL.Path (\"\" when URL is nil, no nil dereference); (b) the basic result is stored into Route.ClusterName and nil returned exactly when Get reported found and the name was compared unequal to route_rule_conf.AdvancedMode, with no advanced lookup on that path; on every other path the final Route.ClusterName never derives from the basic result; (c) advanced rules are productAdvancedRouteTable[req.Route.Product], Condition.Match is invoked on elements of that slice through an index that ascends by one from 0 (configured order), after a Match that returned true no further Match is invoked and the cluster stored is the ClusterName of that same element; (d) when the product has no advanced rules / no rule matches, Route.ClusterName is \"\", Route.Error receives ErrNoProductRule / ErrNoMatchRule and that same non-nil sentinel is returned; nil is returned only with a cluster from (b) or (c); (e) the sentinels are assigned only by the package initialiser; BfeServer.findCluster and HostTable.Lookup/FindLocation propagate the error unchanged, in ReverseProxy.ServeHTTP no path leads from a failed findCluster to clusterInvoke or ClusterTable.Lookup (not forwarded) and the cluster looked up there is Route.ClusterName of the same request; BfeServer.Balance (TLS proxy mode) consults no balancer after a failed FindLocation; (f) configured order is preserved up to the lookup: convertAdvancedRule stores ClusterName and the built Cond of the i-th configured rule into element i of a slice of len(ruleFiles) published under the product name, no configured rule can be skipped (every completed iteration of the rule loop has stored both), RouteTableConf.AdvancedRuleMap/BasicRuleTree are the converters' results and HostTable's two tables are installed only by updateRouteTable from them; (g) the basic tree consulted holds every configured basic rule, whatever its cluster name — an ADVANCED_MODE entry must be found by Get so that it shadows a broader basic rule and hands the request to the advanced rules: in convertBasicRule no iteration of the loop over a product's rules completes without BasicRouteRuleTree.Insert(current element) on the tree that is published under the product in the returned map (every product iteration publishes a tree created inside it); BasicRouteRuleTree.Insert cannot report success before the host loop, every host iteration passes hostTrees.insert and the path loop, every path iteration passes pathTrees.insert(current path, *ruleConf.ClusterName) on the trees returned for that host; pathTrees.insert reports success only after a radix insertion whose value is its cluster parameter; nothing in route_rule_conf/bfe_route deletes radix entries. Not covered: condition evaluation (C16-C18), the basic tree's own precedence (C11), whether configuration loading rejects empty cluster names, modules that overwrite Route.ClusterName in later callbacks.",
-			RuleText:    "obligations = one per (clause, path class) of LookupCluster, the Get call's operands, the iteration index of each Match site, each sentinel's writers, each propagating caller, the ServeHTTP reachability query and cluster operand, each store of convertAdvancedRule, each writer of the route tables, each loop of the basic tree build (rules, hosts, paths), the success exits of Insert and pathTrees.insert, the radix-delete census",
+			Explanation: "Decides on every feasible path of bfe_route.HostTable.LookupCluster: (a) the basic tree consulted is productBasicRouteTree[req.Route.Product] (only under a successful map lookup), with the request host stripped of its port and URL.Path (\"\" when URL is nil, no nil dereference); (b) the basic result is stored into Route.ClusterName and nil returned exactly when Get reported found and the name was compared unequal to route_rule_conf.AdvancedMode, with no advanced lookup on that path; on every other path the final Route.ClusterName never derives from the basic result; (c) advanced rules are productAdvancedRouteTable[req.Route.Product], Condition.Match is invoked on elements of that slice through an index that ascends by one from 0 (configured order), after a Match that returned true no further Match is invoked and the cluster stored is the ClusterName of that same element; (d) when the product has no advanced rules / no rule matches, Route.ClusterName is \"\", Route.Error receives ErrNoProductRule / ErrNoMatchRule and that same non-nil sentinel is returned; nil is returned only with a cluster from (b) or (c); (e) the sentinels are assigned only by the package initialiser; BfeServer.findCluster and HostTable.Lookup/FindLocation propagate the error unchanged, in ReverseProxy.ServeHTTP no path leads from a failed findCluster to clusterInvoke or ClusterTable.Lookup (not forwarded) and the cluster looked up there is Route.ClusterName of the same request; BfeServer.Balance (TLS proxy mode) consults no balancer after a failed FindLocation; (f) configured order is preserved up to the lookup: convertAdvancedRule stores ClusterName and the built Cond of the i-th configured rule into element i of a slice of len(ruleFiles) published under the product name, no configured rule can be skipped (every completed iteration of the rule loop has stored both), RouteTableConf.AdvancedRuleMap/BasicRuleTree are the converters' results and HostTable's two tables are installed only by updateRouteTable from them; (g) the basic tree consulted holds every configured basic rule, whatever its cluster name — an ADVANCED_MODE entry must be found by Get so that it shadows a broader basic rule and hands the request to the advanced rules: in convertBasicRule no iteration of the loop over a product's rules completes without BasicRouteRuleTree.Insert(current element) on the tree that is published under the product in the returned map (every product iteration publishes a tree created inside it); BasicRouteRuleTree.Insert cannot report success before the host loop, every host iteration passes hostTrees.insert and the path loop, every path iteration passes pathTrees.insert(current path, *ruleConf.ClusterName) on the trees returned for that host; pathTrees.insert reports success only after a radix insertion whose value is its cluster parameter; nothing in route_rule_conf/bfe_route deletes radix entries; (h) the basic result is the rule the tree holds for the request, and a basic miss is a real miss: for every radix tree reached from BasicRouteRuleTree.Get and filled from BasicRouteRuleTree.Insert (identified by tree-array type and constant index) the key a lookup searches with has the same form as the key an insertion stores under — same normaliser chain (the writer-only strip of the wildcard marker aside) and, where a constant suffix (the trailing \"/\" of prefix paths) is appended on some paths, the same decision appended/not appended for each class of key: empty, ending in the suffix, not ending in it; the class of a path follows from its branch facts however the guard is spelled (len(x) against a constant, x == \"\", x[len(x)-1], strings.HasSuffix, a boolean helper of the module), so e.g. an empty request path is not turned into \"/\" on the lookup side only; every tree that is filled is also searched; in hostTrees.get, pathTrees.get and BasicRouteRuleTree.Get a constant found=true is returned only with the value of a lookup that reported found on that path, a handed-on verdict is the (value, found) pair of one inner lookup, and a constant not-found is returned only on paths where at least one lookup missed and where every lookup that had found an entry which was then rejected (the single-label test on a wildcard host) is followed up by a missed lookup in the same tree or below that entry (the any-host key \"\" is consulted before a multi-label host is declared a miss). Not covered: condition evaluation (C16-C18), the precedence order exact > wildcard > any inside the basic tree and which tree a rule class belongs to (C11), the radix library's Get/LongestPrefix semantics, key forms built by different helpers on the two sides (reported as not established), whether configuration loading rejects empty cluster names, modules that overwrite Route.ClusterName in later callbacks.",
+			RuleText:    "obligations = one per (clause, path class) of LookupCluster, the Get call's operands, the iteration index of each Match site, each sentinel's writers, each propagating caller, the ServeHTTP reachability query and cluster operand, each store of convertAdvancedRule, each writer of the route tables, each loop of the basic tree build (rules, hosts, paths), the success exits of Insert and pathTrees.insert, the radix-delete census, one per (radix tree, key class) of the basic rule tree, one per (lookup function, exit class: hit-source, delegated, miss-all-missed, miss-after-rejected:<tree>)",
 			Assumptions: []string{"condition.Condition.Match does not modify req.Route", "values re-loaded from req.Route.* between a store and a load in LookupCluster are not changed by another goroutine (a request is served by one goroutine)"},
 		},
 		Run: runC12,
@@ -44,6 +45,20 @@ func init() {
 			{Name: "path-insert-drops-sentinel", File: "bfe_config/bfe_route_conf/route_rule_conf/basic_rule_tree.go", Old: "	if old, updated := pt[treeType].Insert(key, cluster); updated {", New: "	if cluster == AdvancedMode {\n		return nil\n	}\n	if old, updated := pt[treeType].Insert(key, cluster); updated {", Expect: "basic-complete|pathTrees.insert:stores-cluster"},
 			{Name: "sentinel-entries-deleted-after-build", File: "bfe_config/bfe_route_conf/route_rule_conf/route_table_load.go", Old: "		productRuleMap[product] = ruleList\n", New: "		for _, r := range ruleList {\n			if r.ClusterName == AdvancedMode {\n				for _, h := range r.Hostname {\n					ruleTrees.hosts[treeMatchExact].Delete(h)\n				}\n			}\n		}\n		productRuleMap[product] = ruleList\n", Expect: "basic-complete|no-radix-delete"},
 			{Name: "advanced-rule-skipped-on-load", File: "bfe_config/bfe_route_conf/route_rule_conf/route_table_load.go", Old: "			rules[i].ClusterName = *ruleFile.ClusterName\n", New: "			if *ruleFile.ClusterName == AdvancedMode {\n				continue\n			}\n			rules[i].ClusterName = *ruleFile.ClusterName\n", Expect: "configured-order|convertAdvancedRule:every-rule"},
+			{Name: "lookup-slash-appended-to-empty-path", File: brt, Old: "	if len(path) > 0 && path[len(path)-1] != '/' {", New: "	if !strings.HasSuffix(path, \"/\") {", Expect: "basic-key|pathTrees[1]:empty"},
+			{Name: "insert-slash-appended-to-empty-prefix", File: brt, Old: "		if len(key) > 0 && key[len(key)-1] != '/' {", New: "		if !strings.HasSuffix(key, \"/\") {", Expect: "basic-key|pathTrees[1]:empty"},
+			{Name: "lookup-slash-always-appended", File: brt, Old: "	if len(path) > 0 && path[len(path)-1] != '/' {\n		path = path + \"/\"\n	}", New: "	path = path + \"/\"", Expect: "basic-key|pathTrees[1]"},
+			{Name: "insert-host-key-not-case-folded", File: brt, Old: "	key = strings.ToUpper(string_reverse.ReverseFqdnHost(key))", New: "	key = string_reverse.ReverseFqdnHost(key)", Expect: "basic-key|hostTrees"},
+			{Name: "lookup-path-lowercased", File: brt, Old: "	// wildcard match\n	if _, value, found := pt[treeMatchWildcard].LongestPrefix(path); found {", New: "	// wildcard match\n	if _, value, found := pt[treeMatchWildcard].LongestPrefix(strings.ToLower(path)); found {", Expect: "basic-key|pathTrees[1]"},
+			{Name: "wildcard-host-rejected-without-any-host-fallback", File: brt, Old: "		if strings.Contains(remainingPart, \".\") {\n			// not matched, try again to match empty string \"\", which match any hostname\n			if value, found := ht[treeMatchWildcard].Get(\"\"); found {\n				// matched with \"\"\n				return value.(pathTrees), true\n			}\n		} else {", New: "		if !strings.Contains(remainingPart, \".\") {", Expect: "basic-miss|hostTrees.get:miss-after-rejected"},
+			{Name: "path-prefix-candidate-rejected-without-fallback", File: brt, Old: "	if _, value, found := pt[treeMatchWildcard].LongestPrefix(path); found {\n		return value.(string), true\n	}", New: "	if prefix, value, found := pt[treeMatchWildcard].LongestPrefix(path); found && prefix != \"\" {\n		return value.(string), true\n	}", Expect: "basic-miss|pathTrees.get:miss-after-rejected"},
+			{Name: "host-class-found-then-dropped", File: brt, Old: "	if !found {\n		return \"\", false\n	}\n\n	// match path", New: "	if !found || path == \"\" {\n		return \"\", false\n	}\n\n	// match path", Expect: "basic-miss|BasicRouteRuleTree.Get:miss-after-rejected"},
+			{Name: "exact-value-returned-for-wildcard-hit", File: brt, Old: "		} else {\n			// matched with wildcard host\n			return value.(pathTrees), true\n		}", New: "		} else {\n			// matched with wildcard host\n			exact, _ := ht[treeMatchExact].Get(key)\n			if exact == nil {\n				exact = value\n			}\n			return exact.(pathTrees), true\n		}", Expect: "basic-miss|hostTrees.get:hit-source"},
+			{Name: "silent-lookup-guard-respelled", Silent: true, File: brt, Old: "	if len(path) > 0 && path[len(path)-1] != '/' {", New: "	if path != \"\" && !strings.HasSuffix(path, \"/\") {"},
+			{Name: "silent-insert-guard-respelled", Silent: true, File: brt, Old: "	if path[len(path)-1] == '*' {\n		// wildcard path, remove trailing *\n		key = path[:len(path)-1]\n\n		// append slash if no trailing one\n		// /foo, /foo/ or /foo/bar can match with /foo*, but /foobar can not\n		if len(key) > 0 && key[len(key)-1] != '/' {", New: "	if strings.HasSuffix(path, \"*\") {\n		// wildcard path, remove trailing *\n		key = strings.TrimSuffix(path, \"*\")\n\n		// append slash if no trailing one\n		// /foo, /foo/ or /foo/bar can match with /foo*, but /foobar can not\n		if key != \"\" && !strings.HasSuffix(key, \"/\") {"},
+			{Name: "silent-lookup-guard-in-helper", Silent: true, File: brt, Old: "	if len(path) > 0 && path[len(path)-1] != '/' {", New: "	needsSlash := func(s string) bool { return len(s) >= 1 && s[len(s)-1] != '/' }\n	if needsSlash(path) {"},
+			{Name: "silent-any-host-looked-up-eagerly", Silent: true, File: brt, Old: "	if matchedPrefix, value, found := ht[treeMatchWildcard].LongestPrefix(key); found {\n", New: "	anyValue, anyFound := ht[treeMatchWildcard].Get(\"\")\n	if matchedPrefix, value, found := ht[treeMatchWildcard].LongestPrefix(key); found {\n		if anyFound && strings.Contains(strings.TrimPrefix(key, matchedPrefix), \".\") {\n			return anyValue.(pathTrees), true\n		}\n"},
+			{Name: "silent-path-verdict-rebuilt", Silent: true, File: brt, Old: "	// match path\n	return pathTree.get(path)", New: "	// match path\n	name, ok := pathTree.get(path)\n	if !ok {\n		return \"\", false\n	}\n	return name, true"},
 			{Name: "silent-index-loop-over-basic-rules", Silent: true, File: "bfe_config/bfe_route_conf/route_rule_conf/route_table_load.go", Old: "		for i, ruleFile := range ruleFiles {\n\n			if ruleFile.ClusterName == nil {\n				return nil, nil, fmt.Errorf(\"no cluster name in basic route rule", New: "		for i := 0; i < len(ruleFiles); i++ {\n			ruleFile := ruleFiles[i]\n\n			if ruleFile.ClusterName == nil {\n				return nil, nil, fmt.Errorf(\"no cluster name in basic route rule"},
 			{Name: "silent-insert-through-helper", Silent: true, File: "bfe_config/bfe_route_conf/route_rule_conf/route_table_load.go", Old: "			if err := ruleTrees.Insert(&ruleFile); err != nil {\n				return nil, nil, err\n			}\n", New: "			addRule := func(t *BasicRouteRuleTree, r *BasicRouteRuleFile) error {\n				if r == nil {\n					return fmt.Errorf(\"nil rule\")\n				}\n				return t.Insert(r)\n			}\n			if err := addRule(ruleTrees, &ruleFile); err != nil {\n				return nil, nil, err\n			}\n"},
 			{Name: "silent-continue-after-insert", Silent: true, File: "bfe_config/bfe_route_conf/route_rule_conf/route_table_load.go", Old: "			if err := ruleTrees.Insert(&ruleFile); err != nil {\n				return nil, nil, err\n			}\n", New: "			if err := ruleTrees.Insert(&ruleFile); err != nil {\n				return nil, nil, err\n			}\n			if ruleList[i].ClusterName == AdvancedMode {\n				continue\n			}\n"},
@@ -515,6 +530,7 @@ func runC12(c *core.Ctx) {
 	c12AdvancedComplete(c)
 	c12Tables(c)
 	c12BasicComplete(c)
+	c12BasicLookup(c)
 }
 
 // c12Balance: BfeServer.Balance (TLS proxy mode) does not select a backend
